@@ -1438,6 +1438,23 @@ impl Puppet {
         let mut o = self.c.obs.lock().unwrap();
         o.finish(end);
         let (log_hash, events, faults, conns) = self.c.net.stats();
+        // C04's "no effect" clause: in a C04 run the model-free effect monitors are C04 oracles
+        // too - a node that acts in a round which only rejectable certificates / timeouts
+        // justify, or emits a certificate containing an invalid entry, was influenced by a
+        // message it had to reject.
+        if self.c.sc.profile == "C04" && self.c.obs_invalid_injected(&o) {
+            let extra: Vec<crate::obs::Violation> = o
+                .violations
+                .iter()
+                .filter(|v| (v.prop == "C10" && v.rule == "round-without-certificate") || (v.prop == "C19" && (v.rule == "invalid-qc-emitted" || v.rule == "invalid-tc-emitted")))
+                .map(|v| crate::obs::Violation { prop: "C04".into(), rule: format!("effect-of-invalid-message.{}", v.rule), detail: format!("after invalid messages had been injected: {}", v.detail), seq: v.seq, t_us: v.t_us, node: v.node })
+                .collect();
+            for v in extra {
+                if !o.violations.iter().any(|x| x.prop == v.prop && x.rule == v.rule) {
+                    o.violations.push(v);
+                }
+            }
+        }
         RunReport {
             violations: o.violations.clone(),
             probes: o.probes.clone(),
